@@ -1513,7 +1513,13 @@ func (fc *funcContext) formatExprInternal(format string, a []any, parens bool) *
 		case 'f':
 			e := a[n].(ast.Expr)
 			if val := fc.pkgCtx.Types[e].Value; val != nil {
-				d, _ := constant.Int64Val(constant.ToInt(val))
+				iv := constant.ToInt(val)
+				d, exact := constant.Int64Val(iv)
+				if !exact && iv.Kind() == constant.Int {
+					// Does not fit int64 (a large uint64 constant): write its digits.
+					out.WriteString(iv.ExactString())
+					return
+				}
 				out.WriteString(strconv.FormatInt(d, 10))
 				return
 			}
